@@ -430,10 +430,10 @@ func run(c *vf.Ctx) {
 
 	tmp := vf.TempDir("c05")
 	defer os.RemoveAll(tmp)
-	d := &driver{c: c, tmp: tmp, maxOffsets: c.N(40, 250)}
+	d := &driver{c: c, tmp: tmp, maxOffsets: c.N(40, 120)}
 
-	nSQL := c.N(150, 4000)
-	nSyn := c.N(300, 20000)
+	nSQL := c.N(150, 1500)
+	nSyn := c.N(300, 10000)
 
 	tmpls := map[int][]byte{}
 	for _, ps := range []int{512, 1024, 4096, 8192, 65536} {
@@ -517,5 +517,5 @@ func run(c *vf.Ctx) {
 	wg.Wait()
 	c.Count("wals_sqlite", producedSQL)
 	c.Count("wals_synthetic", producedSyn)
-	c.Require(int64(c.N(1500, 40000)), c.N(800, 20000))
+	c.Require(int64(c.N(1500, 20000)), c.N(800, 10000))
 }
